@@ -321,7 +321,8 @@ where
 
 pub fn run(rec: &mut Rec) {
     let full: Vec<usize> = (1..=256).collect();
-    let quick: Vec<usize> = vec![1, 2, 64, 80, 100, 127, 128, 129, 200, 250, 251, 252, 253, 254, 255, 256];
+    // includes the band lambda + log2(n) ~ log2|F| for n up to 2^40 on the 253/255-bit fields, where the n/|F| term matters
+    let quick: Vec<usize> = vec![1, 2, 64, 80, 100, 127, 128, 129, 200, 210, 215, 220, 225, 230, 235, 240, 243, 245, 248, 250, 251, 252, 253, 254, 255, 256];
     let lambdas: &[usize] = if rec.thorough() { &full } else { &quick };
     grid_t::<Fr381>(rec, "bls12-381-Fr", lambdas, 40);
     grid_t::<Fr377>(rec, "bls12-377-Fr", lambdas, 40);
